@@ -203,9 +203,17 @@ class MWorld:
         """remove --keep: subtree becomes unversioned, files stay."""
         p = op["path"]
         i = self.id_at(p)
+        def gone(d):
+            # missing itself, or below a directory that vanished from disk (delete_disk of a whole directory marks
+            # only the directory; its children are gone with it)
+            while d is not None and d in self.ents:
+                if self.ents[d].missing:
+                    return True
+                d = self.ents[d].parent
+            return False
         for d in self.descendants(i) + [i]:
             e = self.ents[d]
-            if not e.missing:
+            if not gone(d):
                 self.unv[self.path(d)] = (e.kind, e.content, e.exec)
         for d in self.descendants(i) + [i]:
             del self.ents[d]
